@@ -65,4 +65,4 @@ def nontrivial(req, ans):
 
 LEVEL = "proof"
 LEVEL_TEXT = "Lean 4 theorem by induction over programs (run_sim, Lemmas/Stream.lean): for EVERY routine - capture-free or capturing (Constructed::capture*, constructed OCTET STRING decoding; nested captures included) -, every input, limit and EVERY grant policy obeying the Source contract, the run over the streaming source yields the same value / the same rejection and the same remaining input as the run over a slice, and never looks at, extracts or advances over ungranted octets (source_independence; source_independence_closed: when no capture is left open the base source stands exactly where the slice does). The stream layer models open CaptureSources literally with respect to the base source: it is not advanced while a capture is open, every request reaches it with the captured offset added (pos + len), slices are taken behind that offset, into_bytes advances it when the outermost capture ends (sim_capBegin, sim_capEnd, adv_sim). Instantiated for value-by-value reading, skip_all, all fixed-width INTEGER readers, capture_one and OCTET STRING decoding in every form (capture_one_independent, octet_string_independent; kernel-evaluated runs over the stingy and the one-octet-at-a-time source). Correspondence: every case over 19 real Source implementations incl. contract-asserting stingy/chunked/over-granting ones and OctetString as a source; for the streaming kinds the model answers from the stream layer itself, captures included."
-LEVEL_NOTE = "Trusted: Lean 4.33 kernel; axioms propext, Classical.choice, Quot.sound only; the hand-written model (lean/Bcder/Model) tied to /repo on every run by differential correspondence (tools/check.py, harness/, lean/Driver.lean); reference definitions lean/Bcder/Spec. Modelled rather than proved in the stream layer: the limits of the LimitedSources that enclose an open CaptureSource are not applied a second time to requests (the library keeps inner limit + captured offset <= outer limit: capture copies the limit, readers only narrow and restore it; under that discipline they cut nothing off) - the generous layer does the same, and the correspondence runs every capture case over limited parents. The hypothesis 'the slice run does not panic' is discharged by C01. OctetStringSource conformance is exercised, not proved."
+LEVEL_NOTE = "Trusted: Lean 4.33 kernel; axioms propext, Classical.choice, Quot.sound only; the hand-written model (lean/Bcder/Model) tied to /repo on every run by differential correspondence (tools/check.py, harness/, lean/Driver.lean); reference definitions lean/Bcder/Spec. Modelled rather than proved in the stream layer: the limits of the LimitedSources that enclose an open CaptureSource are not applied a second time to requests (the library keeps inner limit + captured offset <= outer limit: capture copies the limit, readers only narrow and restore it; under that discipline they cut nothing off) - the generous layer does the same, and the correspondence runs every capture case over limited parents. The hypothesis 'the slice run does not panic' is discharged by C01. OctetStringSource: that its request/advance meet the Source contract over the concatenated content is C16.request_inv / advance_inv (every request grants min(len, pending) or more, the slice is a prefix of the pending content, advance drops exactly that many octets); it is not instantiated as a grant policy of the stream layer, the os.views src= comparison drains it as a source on every run."
